@@ -9,6 +9,7 @@ import (
 	"strings"
 
 	"github.com/xelaj/mtproto/internal/encoding/tl"
+	"github.com/xelaj/mtproto/zverif/freepass"
 	"github.com/xelaj/mtproto/zverif/ref/rpcsrv"
 	"github.com/xelaj/mtproto/zverif/ref/tlw"
 	"github.com/xelaj/mtproto/zverif/tlx"
@@ -25,6 +26,7 @@ func shapeClass(c tlx.Case) string {
 
 func main() {
 	run := vr.New("C02", "exploration")
+	freepass.MaybeReplay(run)
 	run.Rule("for every definition of schemes/api_latest.tl and every mtproto.tl definition that has a registered Go type: the shape alphabet of C01 (two bases, <=k field deviations, all shared-group presence patterns); expected bytes are produced by a serialiser that interprets the .tl line independently; non-trivial = distinct case with >=1 deviation whose bytes were compared")
 	run.Assume("the i-th non-flags schema parameter corresponds to the i-th struct field (checked separately by C13)",
 		"reference parser/serialiser R1 (harness/ref/tlschema, harness/tlx/ref.go, harness/ref/tlw) is trusted; its CRC rule reproduces all 1195 written ids of api_latest.tl")
@@ -97,6 +99,7 @@ func main() {
 	run.Set("constructors_compared", covered)
 	run.Set("registered_without_schema_line", noSchema)
 	run.Set("deviation_bound_k", k)
+	freepass.Run(run, run.ID, freepass.Rounds(run))
 	run.Finish()
 }
 
@@ -137,6 +140,14 @@ func checkCase(run *vr.Run, sch *tlx.Schemas, e *tlx.Entry, c tlx.Case) {
 		sampled++
 		run.Sample(map[string]any{"case": c.ID, "expected_bytes_hex_prefix": fmt.Sprintf("%x", want[:min(len(want), 24)])})
 	}
+	// the bytes returned for the previous value are still held by its caller: they must not change under it
+	if heldGot != nil && !bytes.Equal(heldGot, heldWant) {
+		run.Violation("held-bytes-changed-by-a-later-Marshal", c.ID+": the bytes returned by the previous Marshal call ("+heldID+") changed during this call", rep)
+		heldGot = nil
+	}
+	if bytes.Equal(got, want) {
+		heldGot, heldWant, heldID = got, want, c.ID
+	}
 	if !bytes.Equal(got, want) {
 		i := 0
 		for i < len(got) && i < len(want) && got[i] == want[i] {
@@ -158,6 +169,11 @@ func checkCase(run *vr.Run, sch *tlx.Schemas, e *tlx.Entry, c tlx.Case) {
 		}
 	}
 }
+
+var (
+	heldGot, heldWant []byte
+	heldID            string
+)
 
 type strHolder struct{ S []byte }
 
